@@ -98,6 +98,26 @@ def gen_cases(tier, seed):
             continue
         hb = g.route("Heartbeat", ("ret", {"current_time": "t"}))
         cases.append(("1.6", [hb], ['[2,"h0","Heartbeat",{}]', f, '[2,"h1","Heartbeat",{}]'], "closed", False))
+    # payloads nested deeper than the recursive key conversion can follow but within what json.loads accepts: a
+    # schema-valid CALL (free-form customData), a CALL on a validation-skipping route, and a CALL that validation
+    # rejects (its CALLERROR quotes the payload); none of them may end the loop.  Not given to the model (the
+    # recursion limit of the Python-level helpers is not modelled).
+    from harness import textcases as T
+    limit = T.measured_limit() or 1497
+
+    def nest(d):
+        return '{"a":' * d + "1" + "}" * d
+    hb201 = g.route("Heartbeat", ("ret", {"current_time": "t"}))
+    dt_skip = g.route("DataTransfer", ("ret", {"status": "Accepted"}), skip=True)
+    dt = g.route("DataTransfer", ("ret", {"status": "Accepted"}))
+    for d in (100, 700, 990, 1200, limit - 12):
+        cases.append(("2.0.1", [hb201], ['[2,"p0","Heartbeat",{}]', '[2,"deep","Heartbeat",{"customData":{"vendorId":"v","x":%s}}]' % nest(d),
+                                          '[2,"p1","Heartbeat",{}]'], "closed", False, 30, "valid-%d" % d))
+        cases.append(("1.6", [dt_skip], ['[2,"deep","DataTransfer",{"vendorId":"v","data":%s}]' % nest(d), '[2,"p1","DataTransfer",{"vendorId":"v"}]'],
+                      "closed", False, 30, "skip-%d" % d))
+    for d in (990, 1200, limit - 7):
+        cases.append(("1.6", [dt], ['[2,"deep","DataTransfer",{"vendorId":"v","data":%s}]' % nest(d), '[2,"p1","DataTransfer",{"vendorId":"v"}]'],
+                      "closed", False, 30, "rejected-%s" % ("near-limit" if d == limit - 7 else d)))
     return cases
 
 
@@ -108,14 +128,20 @@ def body_factory(tier, seed):
         for case in cases:
             version, routes, frames, exc_kind, gate_held = case[:5]
             rt = case[5] if len(case) > 5 else 30
+            deep = case[6] if len(case) > 6 else None
             seq, how = D.observe_loop(version, routes, frames, exc_kind, gate_held, response_timeout=rt)
             rep.count(json.dumps([version, repr(frames), exc_kind, gate_held], default=repr))
             rep.add("frames", len(frames))
             rep.add("end:" + exc_kind)
             replay = {"kind": "loop", "version": version, "routes": routes, "frames": [f if isinstance(f, str) else {"hex": bytes(f).hex()} for f in frames],
                       "recv_exception": exc_kind, "gate_held": gate_held, "response_timeout": rt, "observation": seq, "ended": how}
+            if deep:
+                replay["frames"] = None
+                replay["deep"] = deep
             for key, what in oracle(frames, seq, how, exc_kind):
-                rep.violation("C18:" + key, what, replay)
+                rep.violation(("C18:deep:%s:%s" % (deep, key.split(":")[0])) if deep else ("C18:" + key), what, replay)
+            if deep:
+                continue
             los = [D.loads_outcome(f)[1] for f in frames]
             if any(x is None for x in los):
                 continue
@@ -162,6 +188,16 @@ def run(rep, tier, seed):
 
 
 def replay(d):
+    if d.get("deep"):
+        hit = [c for c in gen_cases("quick", 0) if len(c) > 6 and c[6] == d["deep"]]
+        if not hit:
+            print("no such deep case")
+            return 0
+        version, routes, frames, exc_kind, gate_held = hit[0][:5]
+        seq, how = D.observe_loop(version, routes, frames, exc_kind, gate_held, response_timeout=30)
+        bad = oracle(frames, seq, how, exc_kind)
+        print("deep case %s: ended %r; %s" % (d["deep"], how, "FAILS: %s" % bad if bad else "HOLDS"))
+        return 1 if bad else 0
     frames = [f if isinstance(f, str) else bytes.fromhex(f["hex"]) for f in d["frames"]]
     routes = d["routes"]
     for r in routes:
